@@ -69,7 +69,11 @@ func main() {
 			opt.Quiet = true
 			store = &kf.Store{} // triage sees every failing case
 		}
-		code := harness.Coordinate(opt, mk(*tier), store)
+		plan := mk(*tier)
+		if cmd == "triage" {
+			plan.Budget = 0 // the maintenance sweep that feeds the known-findings store is never cut short
+		}
+		code := harness.Coordinate(opt, plan, store)
 		if cmd == "triage" {
 			fmt.Println("triage files in", opt.Triage)
 			os.Exit(0)
